@@ -4,6 +4,7 @@ import (
 	"fmt"
 	"github.com/metrico/qryn/reader/logql/logql_transpiler_v2/shared"
 	sql "github.com/metrico/qryn/reader/utils/sql_select"
+	"strconv"
 	"strings"
 )
 
@@ -13,9 +14,9 @@ func (p *ParserPlanner) json(ctx *shared.PlannerContext) (sql.ISelect, error) {
 		return nil, err
 	}
 
-	jsonPaths := make([][]string, len(p.Vals))
+	jsonPaths := make([][]any, len(p.Vals))
 	for i, val := range p.Vals {
-		jsonPaths[i], err = shared.JsonPathParamToArray(val)
+		jsonPaths[i], err = shared.JsonPathParamToTypedArray(val)
 		if err != nil {
 			return nil, err
 		}
@@ -38,7 +39,7 @@ func (p *ParserPlanner) json(ctx *shared.PlannerContext) (sql.ISelect, error) {
 type sqlJsonParser struct {
 	col    sql.SQLObject
 	labels []string
-	paths  [][]string
+	paths  [][]any
 }
 
 func (s *sqlJsonParser) String(ctx *sql.Ctx, opts ...int) (string, error) {
@@ -61,7 +62,7 @@ func (s *sqlJsonParser) String(ctx *sql.Ctx, opts ...int) (string, error) {
 		strings.Join(strVals, ",")), nil
 }
 
-func (s *sqlJsonParser) path2Sql(path []string, ctx *sql.Ctx, opts ...int) (string, error) {
+func (s *sqlJsonParser) path2Sql(path []any, ctx *sql.Ctx, opts ...int) (string, error) {
 	colName, err := s.col.String(ctx, opts...)
 	if err != nil {
 		return "", err
@@ -69,8 +70,13 @@ func (s *sqlJsonParser) path2Sql(path []string, ctx *sql.Ctx, opts ...int) (stri
 
 	res := make([]string, len(path))
 	for i, part := range path {
+		// object keys are string arguments, array positions 1-based integer arguments
+		if idx, ok := part.(int); ok {
+			res[i] = strconv.Itoa(idx + 1)
+			continue
+		}
 		var err error
-		res[i], err = (sql.NewStringVal(part)).String(ctx, opts...)
+		res[i], err = (sql.NewStringVal(fmt.Sprint(part))).String(ctx, opts...)
 		if err != nil {
 			return "", err
 		}
